@@ -7,6 +7,32 @@ use std::time::Duration;
 
 pub struct SledDB(Sled);
 
+/// Verification hooks (off unless built with `--cfg zerokit_verif`): a process-global
+/// fail-after-N-storage-operations counter and counters of storage operations / open retries.
+#[cfg(zerokit_verif)]
+pub mod verif_hooks {
+    use std::sync::atomic::{AtomicI64, AtomicU64, Ordering};
+    /// < 0: disarmed. Otherwise the number of storage operations still allowed to succeed.
+    pub static FAIL_AFTER: AtomicI64 = AtomicI64::new(-1);
+    pub static OPS_SEEN: AtomicU64 = AtomicU64::new(0);
+    pub static FAULTS_FIRED: AtomicU64 = AtomicU64::new(0);
+    pub static OPEN_RETRIES: AtomicU64 = AtomicU64::new(0);
+    /// Returns true when the current storage operation must fail.
+    pub fn storage_op() -> bool {
+        OPS_SEEN.fetch_add(1, Ordering::SeqCst);
+        let left = FAIL_AFTER.load(Ordering::SeqCst);
+        if left < 0 {
+            return false;
+        }
+        if left == 0 {
+            FAULTS_FIRED.fetch_add(1, Ordering::SeqCst);
+            return true;
+        }
+        FAIL_AFTER.store(left - 1, Ordering::SeqCst);
+        false
+    }
+}
+
 impl SledDB {
     fn new_with_tries(config: <SledDB as Database>::Config, tries: u32) -> PmtreeResult<Self> {
         // If we've tried more than 10 times, we give up and return an error.
@@ -20,6 +46,8 @@ impl SledDB {
         match config.open() {
             Ok(db) => Ok(SledDB(db)),
             Err(e) if e.to_string().contains("WouldBlock") => {
+                #[cfg(zerokit_verif)]
+                verif_hooks::OPEN_RETRIES.fetch_add(1, std::sync::atomic::Ordering::SeqCst);
                 // try till the fd is freed
                 // sleep for 10^tries milliseconds, then recursively try again
                 thread::sleep(Duration::from_millis(10u64.pow(tries)));
@@ -68,6 +96,12 @@ impl Database for SledDB {
     }
 
     fn close(&mut self) -> PmtreeResult<()> {
+        #[cfg(zerokit_verif)]
+        if verif_hooks::storage_op() {
+            return Err(PmtreeErrorKind::DatabaseError(
+                DatabaseErrorKind::CustomError("Cannot flush database".to_string()),
+            ));
+        }
         let _ = self.0.flush().map_err(|_| {
             PmtreeErrorKind::DatabaseError(DatabaseErrorKind::CustomError(
                 "Cannot flush database".to_string(),
@@ -84,6 +118,10 @@ impl Database for SledDB {
     }
 
     fn put(&mut self, key: DBKey, value: Value) -> PmtreeResult<()> {
+        #[cfg(zerokit_verif)]
+        if verif_hooks::storage_op() {
+            return Err(PmtreeErrorKind::TreeError(TreeErrorKind::InvalidKey));
+        }
         match self.0.insert(key, value) {
             Ok(_) => Ok(()),
             Err(_e) => Err(PmtreeErrorKind::TreeError(TreeErrorKind::InvalidKey)),
@@ -91,6 +129,10 @@ impl Database for SledDB {
     }
 
     fn put_batch(&mut self, subtree: HashMap<DBKey, Value>) -> PmtreeResult<()> {
+        #[cfg(zerokit_verif)]
+        if verif_hooks::storage_op() {
+            return Err(PmtreeErrorKind::TreeError(TreeErrorKind::InvalidKey));
+        }
         let mut batch = sled::Batch::default();
 
         for (key, value) in subtree {
